@@ -75,18 +75,17 @@ def parseChunkSize (line : Bytes) : Except E Nat :=
     | none => .error .chunkSize
 
 /-- `ChunkedReader<R>` state. -/
-structure Chunked where
-  inner : BufR
+structure Chunked (σ : Type) where
+  inner : σ
   buffer : Bytes := []
   consumed : Nat := 0
   remaining : Nat := 0
   reachedEof : Bool := false
   failed : Bool := false
-  deriving Repr
 
 /-- src/parsing/chunked_reader.rs `read_chunk_size` -/
-def Chunked.readChunkSize (c : Chunked) : RR Nat × Chunked :=
-  match readLine c.inner Consts.chunkSizeLineLimit with
+def Chunked.readChunkSize (S : Src σ) (c : Chunked σ) : RR Nat × Chunked σ :=
+  match readLine S c.inner Consts.chunkSizeLineLimit with
   | (.ok line, r') =>
     let c' := { c with inner := r', buffer := line }
     if line = [] then (.err .eof, c')
@@ -98,11 +97,11 @@ def Chunked.readChunkSize (c : Chunked) : RR Nat × Chunked :=
   | (.panic, r') => (.panic, { c with inner := r' })
 
 /-- The refill part of `fill_buf` (entered when `buffer.len() == consumed` and not at the end). -/
-def Chunked.refill (c : Chunked) (maxBuf : Nat) : RR Unit × Chunked :=
+def Chunked.refill (S : Src σ) (c : Chunked σ) (maxBuf : Nat) : RR Unit × Chunked σ :=
   -- 1. chunk-size line if the previous chunk is complete
-  let step1 : RR Unit × Chunked :=
+  let step1 : RR Unit × Chunked σ :=
     if c.remaining = 0 then
-      match c.readChunkSize with
+      match c.readChunkSize S with
       | (.ok n, c') => (.ok (), { c' with remaining := n, reachedEof := c'.reachedEof || n == 0 })
       | (.err e, c') => (.err e, c')
       | (.blocked, c') => (.blocked, c')
@@ -111,13 +110,13 @@ def Chunked.refill (c : Chunked) (maxBuf : Nat) : RR Unit × Chunked :=
   match step1 with
   | (.ok (), c1) =>
     let want := min c1.remaining maxBuf
-    (match c1.inner.readExact want with
+    (match S.readExact c1.inner want with
      | (.ok bs, r') =>
        -- `self.remaining -= self.buffer.len()` : usize subtraction
        if c1.remaining < bs.length then (.panic, { c1 with inner := r' }) else
        let c2 := { c1 with inner := r', buffer := bs, consumed := 0, remaining := c1.remaining - bs.length }
        if c2.remaining = 0 then
-         (match readLineEnding c2.inner with
+         (match readLineEnding S c2.inner with
           | (.ok true, r'') => (.ok (), { c2 with inner := r'' })
           | (.ok false, r'') => (.err .chunk, { c2 with inner := r'', buffer := [], reachedEof := true })
           | (.err e, r'') => (.err e, { c2 with inner := r'' })
@@ -132,11 +131,11 @@ def Chunked.refill (c : Chunked) (maxBuf : Nat) : RR Unit × Chunked :=
   | (.panic, c1) => (.panic, c1)
 
 /-- `BufRead::fill_buf` for `ChunkedReader`; a failed refill is latched. Returns the readable slice. -/
-def Chunked.fillBuf (c : Chunked) (maxBuf : Nat) : RR Bytes × Chunked :=
+def Chunked.fillBuf (S : Src σ) (c : Chunked σ) (maxBuf : Nat) : RR Bytes × Chunked σ :=
   if c.failed then (.err .chunk, c) else
-  let res : RR Unit × Chunked :=
+  let res : RR Unit × Chunked σ :=
     if c.buffer.length = c.consumed ∧ ¬ (c.remaining = 0 ∧ c.reachedEof) then
-      match c.refill maxBuf with
+      match c.refill S maxBuf with
       | (.ok (), c') => (.ok (), c')
       | (.err e, c') => (.err e, { c' with failed := true, buffer := [], consumed := 0 })
       | (.blocked, c') => (.blocked, { c' with failed := true, buffer := [], consumed := 0 })
@@ -150,12 +149,12 @@ def Chunked.fillBuf (c : Chunked) (maxBuf : Nat) : RR Bytes × Chunked :=
   | (.blocked, c') => (.blocked, c')
   | (.panic, c') => (.panic, c')
 
-def Chunked.consume (c : Chunked) (amt : Nat) : Chunked :=
+def Chunked.consume (c : Chunked σ) (amt : Nat) : Chunked σ :=
   { c with consumed := min (c.consumed + amt) c.buffer.length }
 
 /-- `Read::read` for `ChunkedReader` with a caller buffer of `n` bytes. -/
-def Chunked.read (c : Chunked) (maxBuf n : Nat) : RR Bytes × Chunked :=
-  match c.fillBuf maxBuf with
+def Chunked.read (S : Src σ) (c : Chunked σ) (maxBuf n : Nat) : RR Bytes × Chunked σ :=
+  match c.fillBuf S maxBuf with
   | (.ok avail, c') => let out := avail.take n; (.ok out, c'.consume out.length)
   | (.err e, c') => (.err e, c')
   | (.blocked, c') => (.blocked, c')
@@ -163,10 +162,9 @@ def Chunked.read (c : Chunked) (maxBuf n : Nat) : RR Bytes × Chunked :=
 
 /-- `BodyReader` -/
 inductive Body where
-  | chunked (c : Chunked)
+  | chunked (c : Chunked BufR)
   | length (r : BufR) (limit : Nat)
   | close (r : BufR)
-  deriving Repr
 
 def Body.new (f : Framing) (r : BufR) : Body :=
   match f with
@@ -178,7 +176,7 @@ def Body.new (f : Framing) (r : BufR) : Body :=
     early-EOF check. -/
 def Body.read (b : Body) (maxBuf n : Nat) : RR Bytes × Body :=
   match b with
-  | .chunked c => match c.read maxBuf n with | (res, c') => (res, .chunked c')
+  | .chunked c => match c.read bufSrc maxBuf n with | (res, c') => (res, .chunked c')
   | .close r => match r.read n with | (res, r') => (res, .close r')
   | .length r limit =>
     if limit = 0 then (.ok [], b) else
